@@ -1,6 +1,6 @@
 #!/bin/bash
 # tools/seedrun.sh <patch.diff> <Cxx> [<Cyy> ...]  — run checks against a scratch copy of /repo with a seeded change applied.
-# Uses a private copy of /verif and a private worktree of /repo, so neither /repo nor /verif is touched.
+# Uses a private copy of /verif (or of $VERIF_SRC) and a private worktree of /repo, so neither /repo nor /verif is touched.
 # Prints one line per property: "RESULT <patch-dir> <Cxx>: CAUGHT n=<violations> [first classes]" or "MISSED".
 set -u
 PATCH=$(readlink -f "$1"); shift
@@ -9,7 +9,7 @@ NAME=$(basename $(dirname $PATCH))
 W=$(mktemp -d /tmp/seedrun.XXXXXX)
 git -C /repo worktree add -q --detach "$W/repo" HEAD || exit 2
 if ! git -C "$W/repo" apply "$PATCH"; then echo "RESULT $NAME: PATCH DOES NOT APPLY"; git -C /repo worktree remove --force "$W/repo"; rm -rf "$W"; exit 2; fi
-rsync -a --exclude .git --exclude replays /verif/ "$W/verif/"
+rsync -a --exclude .git --exclude replays "${VERIF_SRC:-/verif}/" "$W/verif/"
 cd "$W/verif"
 for P in "$@"; do
   OUT=$(VERIF_REPO="$W/repo" timeout 2400 ./check "$P" "$TIER" 2>&1)
